@@ -134,11 +134,11 @@ class FPAdder_SP(Logic):
         _FP_parts_raw(self, 'parts_a_raw', a, None, ea, None)
         _FP_parts_raw(self, 'parts_b_raw', b, None, eb, None)
         
-        # Maximum possible shifting is 23 bits (of the mantisa), so
-        # it is enough with 5 bits for ediff
+        # The exponents are 8 bits wide and any difference of 24 or more
+        # shifts the whole mantissa out, so ediff keeps all 8 bits
         # Also we know ediff will be always positive
 
-        ediff = self.wire('ediff', 5)
+        ediff = self.wire('ediff', 8)
         Sub(self, 'ediff', ea, eb, ediff)
         
         mb3 = self.wire('mb3', mb.getWidth())
